@@ -823,6 +823,62 @@ func rulesC03(r *Run) {
 	} else {
 		r.Check("R2", "count:stored-failures", posA, badA == "", "%s", orOK(badA, "incremented once per sequence whose stored status is Failed"))
 	}
+	// (a') round-4 seed C03-7: the count covers EVERY sequence. Recovery resets an in-flight sequence without a finished action
+	// to NotStarted, so with Concurrency > 1 a NotStarted sequence can stand in front of sequences already stored Failed: a
+	// scan that stops early (break, return) at some element starts from a count that is too low and launches sequences the
+	// threshold forbids. Every path that enters the counting loop runs it to exhaustion — unless it has established the
+	// threshold exceeded, after which the exact count no longer matters.
+	if seenA {
+		hdr := map[token.Pos]bool{}
+		for i := range s.paths {
+			p := &s.paths[i]
+			for j, e := range p.Ev {
+				if isAdd(e) {
+					if hi := LastBefore(p, j, func(x Event) bool { return x.Kind == EvRange && x.Taken && x.Depth == 0 }); hi >= 0 {
+						hdr[p.Ev[hi].Pos] = true
+					}
+				}
+			}
+		}
+		badC := ""
+		var posC token.Pos = s.fn.Decl.Pos()
+		for i := range s.paths {
+			p := &s.paths[i]
+			if p.Exit != ExitReturn {
+				continue
+			}
+			last := -1
+			for j, e := range p.Ev {
+				if e.Kind == EvRange && e.Depth == 0 && hdr[e.Pos] {
+					if e.Taken {
+						last = j
+					} else {
+						last = -1
+					}
+				}
+			}
+			if last < 0 || badC != "" {
+				continue
+			}
+			exceeded := false
+			for j := last + 1; j < len(p.Ev); j++ {
+				if ex, ok := t.exceededOn(p.Ev[j]); ok && ex {
+					exceeded = true
+				}
+			}
+			if !exceeded {
+				g := ""
+				for j := last + 1; j < len(p.Ev); j++ {
+					if p.Ev[j].Kind == EvBranch && p.Ev[j].Cond != nil {
+						g = ExprStr(p.Ev[j].Cond)
+						break
+					}
+				}
+				badC, posC = "the loop that counts the sequences stored as Failed is left before its last element (after the test `"+g+"`): a sequence recovery reset to NotStarted can stand in front of failed ones, the failures behind it are not counted and sequences the threshold forbids are launched", p.Ev[last].Pos
+			}
+		}
+		r.Check("R2", "count:stored-failures-scan-complete", posC, badC == "", "%s", orOK(badC, "the counting loop runs over every sequence"))
+	}
 	// (b) in the literal: iff execSeq failed
 	badB := ""
 	var posB token.Pos = s.lit.Pos()
